@@ -14,6 +14,11 @@ once through the derived impl with the trait's flag-free placeholder and once th
 both strings go to the event log and are compared offline, byte for byte.  Attribute-free shapes are
 checked against the documented rule: a single field prints as the field under the derived trait, a
 unit struct/variant prints its name (through an independent `rename_all` model).
+
+Two side workloads: (a) a fixed set of attributes whose literal/argument list `format!` itself rejects
+(`{1}` with one argument, unused argument, unknown name, non-usize width ...) must not compile
+(L0, `cargo check`); (b) breadth on `rename_all` (struct/enum/variant level, override order) through
+the in-process expander, reading the name literal out of the expansion.
 """
 import re
 
